@@ -30,9 +30,13 @@ def main():
             counters[k] = counters.get(k, 0) + v
         violations += s["violations"]
     records = []
+    merr = []
     props = sorted({k.split(".")[0] for k in counters})
     for k, v in sorted(counters.items()):
         if k.endswith("#violations"):
+            continue
+        if k.endswith("#monitor_error"):
+            merr.append("%s x%d" % (k, v))
             continue
         nv = counters.get(k + "#violations", 0)
         r_ = rec("pinned tests with contracts installed: " + k, "pytest", v, nv, 0, sig=str([x["detail"] for x in violations if x["contract"] == k][:2])[:300] if nv else None)
@@ -40,7 +44,10 @@ def main():
         records.append(r_)
     inconclusive = []
     if r.returncode != 0:
-        inconclusive.append("pinned test-suite did not pass with the contracts installed: " + tail)
+        failed = [ln for ln in r.stdout.splitlines() if ln.startswith(("FAILED", "ERROR"))][:5]
+        inconclusive.append("pinned test-suite did not pass with the contracts installed: %s %s" % (tail, failed))
+    if merr:
+        inconclusive.append("online contracts failed in their own code: " + ", ".join(merr))
     write_out(d, {"records": records, "executions": 1, "distinct_keys": ["pytest-with-contracts"], "samples": [{"pytest": tail, "contract_evaluations": {k: v for k, v in counters.items() if not k.endswith("#violations")}}], "inconclusive": inconclusive, "properties": props})
 
 
